@@ -156,6 +156,9 @@ func tokensGraph() parsley.Parser {
 		lt(userID, text.WsSpacesNl),
 		lt(combinator.Any(terminal.Rune('+'), terminal.Rune('-')).Name("sign"), text.WsSpaces),
 		lt(parser.ReturnError(terminal.Rune('#'), prebuiltErr("!hash")), text.WsSpaces),
+		// a rarely taken branch with an expression that does not compile: the library panics
+		// there (the caller recovers), alone and in company alike
+		lt(combinator.SeqOf(terminal.Rune('~'), terminal.Regexp(nil, "BAD", "bad", "[a-", 0)), text.WsSpaces),
 	).Name("token")
 	return combinator.Sentence(text.RightTrim(combinator.Many(tokenP).Bind(concatInterp), text.WsSpacesNl))
 }
@@ -328,7 +331,7 @@ func (s *GraphSpec) genInput(r *Rand) string {
 		}
 		in += []string{"", "", "!", "?"}[r.Intn(4)]
 	case "tokens":
-		toks := []string{"1", "2.5", `"s"`, "'c'", "true", "false", "nil", "1h2m", "\nlet", "==", "foo_bar", "+", "-", "0x1f", "`raw`", "#"}
+		toks := []string{"1", "2.5", `"s"`, "'c'", "true", "false", "nil", "1h2m", "\nlet", "==", "foo_bar", "+", "-", "0x1f", "`raw`", "#", "~z"}
 		n := r.Range(0, 6)
 		for i := 0; i < n; i++ {
 			sb.WriteString([]string{" ", " ", "\n", "  ", ""}[r.Intn(5)])
